@@ -101,7 +101,19 @@ func init() {
 		if a.Str("pkg") == "b64" {
 			ch = "A"
 		}
-		ok, out := textDec(a.Str("pkg"), a.Str("fn"), strings.Repeat(ch, n))
-		return Res{"ok": ok, "outlen": len(out)}
+		in := strings.Repeat(ch, n)
+		// line breaks count towards the documented size limit like any other byte of the string
+		if k := a.Int("crlf"); k > 0 {
+			switch a.Str("crlfpos") {
+			case "start":
+				in = strings.Repeat("\n", k) + in
+			case "middle":
+				in = in[:n/2] + strings.Repeat("\r\n", k/2) + strings.Repeat("\n", k%2) + in[n/2:]
+			default:
+				in = in + strings.Repeat("\n", k)
+			}
+		}
+		ok, out := textDec(a.Str("pkg"), a.Str("fn"), in)
+		return Res{"ok": ok, "outlen": len(out), "inlen": len(in)}
 	})
 }
